@@ -252,12 +252,21 @@ def check_pair(rule, p):
 			ids = re.findall(r'[A-Za-z_][A-Za-z0-9_]*', x)
 			ids = [i for i in ids if i not in ('self', 'ref', 'mut', 'as', 'Some', 'None', 'unwrap', 'clone', 'map', 'as_ref', 'iter', 'collect')]
 			return ids[-1] if ids else None
-		wn = {n: tail_ident(f) for n, f, k in entry_types(p.writers[0])}
-		rn = {n: tail_ident(f) for n, f, k in entry_types(p.readers[0])}
+		def nn(x):
+			if x is None:
+				return None
+			x = x.lstrip('_')
+			for suf in ('_opt', '_ser', '_legacy', '_wrapper', '_read'):
+				if x.endswith(suf):
+					x = x[:-len(suf)]
+			return x
+		wn = {n: nn(tail_ident(f)) for n, f, k in entry_types(p.writers[0])}
+		rn = {n: nn(tail_ident(f)) for n, f, k in entry_types(p.readers[0])}
 		for n in wn:
 			if n in rn and wn[n] and rn[n] and wn[n] != rn[n]:
 				for m in wn:
-					if m != n and m in rn and wn[m] == rn[n] and rn[m] == wn[n]:
+					# the reader names its variable for type n after what the writer puts in type m
+					if m != n and m in rn and wn[m] == rn[n] and rn[m] != wn[m]:
 						out.append(Result(rule, False, 'crossed:%s:%s:%s' % (key, n, m), '%s writes `%s` as type %s and `%s` as type %s, but %s reads type %s into `%s` and type %s into `%s` (swapped)' % (
 							desc(p.writers[0]), wn[n], n, wn[m], m, desc(p.readers[0]), n, rn[n], m, rn[m]), 2, where='%s:%d' % (p.writers[0]['rel'], p.writers[0]['line'])))
 	if not out:
